@@ -1042,6 +1042,27 @@ def run(ctx):
                 record(batch, case, wb, good, comp, rep, outs, tol)
                 if rep != {}:
                     ctx.violation(case, "non-empty report on a consistent workbook", impl=repr(rep)[:300], expected={})
+        # ---- consistent file in which some formula cells have no stored result: still an empty report, the
+        #      cells without stored result as the checked outputs or on the way
+        partial = {i: (None if rng.random() < 0.4 else r) for i, r in good.items()}
+        missing = [i for i in formulas if partial[i] is None]
+        if missing:
+            wbgen.write_xlsx_with_results(wb, partial, path)
+            for outs in (None, [wb.nodes[rng.choice(missing)]['addr']]):
+                tol = rng.choice([None, 0.001, 1])
+                comp = ExcelCompiler(filename=path)
+                case = dict(call='validate', workbook=desc, args=[outs, tol], perturbed=None,
+                            no_stored_result=[wb.nodes[o]['addr'] for o in missing])
+                try:
+                    rep = quiet(comp.validate_calcs, output_addrs=outs, tolerance=tol)
+                except Exception as exc:      # noqa: BLE001
+                    ctx.violation(case, f"validate_calcs raises {type(exc).__name__}: {exc}"[:200])
+                    continue
+                ctx.count(('ok-partial', k, tol, repr(outs)), kind='consistent:some-cells-without-stored-result')
+                record(batch, case, wb, partial, comp, rep, outs, tol)
+                if rep != {}:
+                    ctx.violation(case, "non-empty report on a consistent workbook (some formula cells without stored "
+                                        "result)", impl=repr(rep)[:300], expected={})
         # ---- perturb one stored result at a time
         for p in formulas:
             v = good[p]
@@ -1062,19 +1083,40 @@ def run(ctx):
                     kind, v2 = 'formula-text', wb.nodes[p]['text']
                 altered = dict(good)
                 altered[p] = v2
-                wbgen.write_xlsx_with_results(wb, altered, path)
                 choices = [None] + [[wb.nodes[o]['addr']] for o in formulas if o == p or p in ancestors(wb, o)]
                 outs = rng.choice(choices)
+                # ---- formula cells WITHOUT a stored result (a formula whose result is "" is saved as <v/>, a file
+                # written by a tool that does not calculate has no cached value at all) downstream of the altered
+                # cell: one of them is the checked output - the altered cell is reachable only through cells that
+                # have nothing to compare -, others lie on the paths; nothing reachable may be skipped
+                below = [o for o in formulas if o != p and p in ancestors(wb, o)]
+                empty = []
+                if below and kind != 'formula-text' and rng.random() < 0.45:
+                    empty = [o for o in below if rng.random() < 0.5] or [rng.choice(below)]
+                    for o in empty:
+                        altered[o] = None
+                    if rng.random() < 0.85:
+                        outs = [wb.nodes[rng.choice(empty)]['addr']]
+                wbgen.write_xlsx_with_results(wb, altered, path)
                 comp = ExcelCompiler(filename=path)
                 paddr = wb.nodes[p]['addr']
                 case = dict(call='validate', workbook=desc, args=[outs, tol], perturbed=[paddr, v, v2, kind])
+                if empty:
+                    case['no_stored_result'] = [wb.nodes[o]['addr'] for o in empty]
                 try:
                     rep = quiet(comp.validate_calcs, output_addrs=outs, tolerance=tol)
                 except Exception as exc:      # noqa: BLE001
                     ctx.violation(case, f"validate_calcs raises {type(exc).__name__}: {exc}"[:200])
                     continue
-                ctx.count(('pert', k, p, kind, tol, repr(outs)), kind='perturbed-' + kind,
+                ctx.count(('pert', k, p, kind, tol, repr(outs), tuple(empty)), kind='perturbed-' + kind,
                           sample=dict(case, report=repr(rep)[:200]))
+                if empty:
+                    ctx.count(('pert-empty', k, p, kind, tol, repr(outs), tuple(empty)),
+                              kind='perturbed:output-without-stored-result' if outs and wb.index_of(outs[0]) in empty
+                              else 'perturbed:cells-without-stored-result-on-the-paths')
+                    # (a cell without stored result that depends on the altered cell MAY be named: evaluating the output
+                    # fills it in from the altered value, and that value is what the loop later compares - the
+                    # property allows every reported cell that depends on the altered one)
                 record(batch, case, wb, altered, comp, rep, outs, tol)
                 mism = rep.get('mismatch', {})
                 if kind == 'half-tol' and tol is not None:
